@@ -1,0 +1,25 @@
+//go:build verif
+
+// Contracts for package p2p, checked by /verif/govc (comment-only; see /verif/DESIGN.md).
+package p2p
+
+// ---------------------------------------------------------------- C20: the peer id is the authenticated key
+// upgrade returns a connection only if the id derived from the key authenticated by the secret
+// connection equals the id the peer announces in its NodeInfo — for inbound and outbound connections
+// alike — and, for an outbound connection, equals the id that was dialed.
+//@ spec func nodeIDOf(ni NodeInfo) ID
+//@ trusted func (ni NodeInfo) ID() (r ID)
+//@   ensures r == nodeIDOf(ni)
+//@ trusted func (ni NodeInfo) Validate() (err error)
+//@ trusted func (ni NodeInfo) CompatibleWith(other NodeInfo) (err error)
+// The two exchanges run over the network with a timeout (goroutines, channels): unknown effects.
+//@ trusted func handshake(c net.Conn, timeout time.Duration, nodeInfo NodeInfo) (r NodeInfo, err error)
+//@   modifies *
+//@ trusted func upgradeSecretConn(c net.Conn, timeout time.Duration, privKey *ecdsa.PrivateKey) (r *conn.SecretConnection, err error)
+//@   modifies *
+//@ func (mt *MultiplexTransport) upgrade(c net.Conn, dialedAddr *NetAddress) (secretConn *conn.SecretConnection, nodeInfo NodeInfo, err error)
+//@   for C20
+//@   requires mt != nil
+//@   modifies *
+//@   ensures [announcedIdIsTheAuthenticatedKey] err == nil ==> nodeIDOf(nodeInfo) == connID
+//@   ensures [dialedPeerIsTheOneReached] err == nil && dialedAddr != nil ==> connID == dialedID
